@@ -165,6 +165,7 @@ type ReqOpts struct {
 	HTTP10    bool // may generate HTTP/1.0 requests
 	Huge      bool // may generate 512 KiB bodies
 	ChunkExt  bool // may generate chunk extensions (a recipient ignores them)
+	TabOWS    bool // may put horizontal tabs (OWS = SP / HTAB) around the values of the framing fields
 	NoBody    bool // never generate a body
 	ForceBody bool // always generate a non-empty body
 	MaxBody   int  // cap on the body length (0 = none)
@@ -172,8 +173,8 @@ type ReqOpts struct {
 
 // ReqInfo describes features of a generated request (for classification).
 type ReqInfo struct {
-	Folded, NearMiss, MixedFraming, Expect, DupCL, LeadingZeroCL, Trailers, H10 bool
-	FoldedNames                                                                 map[string]bool
+	Folded, NearMiss, MixedFraming, Expect, DupCL, LeadingZeroCL, Trailers, H10, TabOWS bool
+	FoldedNames                                                                         map[string]bool
 }
 
 // GenReq draws one well-formed, unambiguously framed request. last says the
@@ -235,6 +236,11 @@ func GenReq(t *rapid.T, idx int, o ReqOpts) (*wire.Req, *ReqInfo) {
 		if name != "Content-Length" {
 			info.MixedFraming = true
 		}
+		if o.TabOWS && rapid.IntRange(0, 5).Draw(t, "tabOWS") == 0 {
+			// optional whitespace around a field value is SP or HTAB; it is not part of the value
+			v = rapid.SampledFrom([]string{"\t", " \t", "\t ", ""}).Draw(t, "owsBefore") + v + rapid.SampledFrom([]string{"\t", " \t ", "", "\t"}).Draw(t, "owsAfter")
+			info.TabOWS = true
+		}
 		framingLines = append(framingLines, wire.KV{K: name, V: v})
 		if rapid.IntRange(0, 9).Draw(t, "clDup") == 0 {
 			framingLines = append(framingLines, wire.KV{K: mixCase(t, "Content-Length"), V: v})
@@ -245,7 +251,12 @@ func GenReq(t *rapid.T, idx int, o ReqOpts) (*wire.Req, *ReqInfo) {
 		if name != "Transfer-Encoding" {
 			info.MixedFraming = true
 		}
-		framingLines = append(framingLines, wire.KV{K: name, V: "chunked"})
+		te := "chunked"
+		if o.TabOWS && rapid.IntRange(0, 5).Draw(t, "tabOWS") == 0 {
+			te = rapid.SampledFrom([]string{"\t", " \t", "\t "}).Draw(t, "owsBefore") + te + rapid.SampledFrom([]string{"\t", " \t ", ""}).Draw(t, "owsAfter")
+			info.TabOWS = true
+		}
+		framingLines = append(framingLines, wire.KV{K: name, V: te})
 		nch := rapid.IntRange(1, 5).Draw(t, "nChunks")
 		for i := 0; i < nch && n > 0; i++ {
 			switch rapid.IntRange(0, 3).Draw(t, "chunkClass") {
